@@ -199,9 +199,15 @@ def table_prop(item, rec):
         st_ = fixtures.symtables()
         info, s = SymtableCodeGen().genCode(tree, st_)
         st_[info.name] = s
-        info, jtext = JsonCodeGen().genCode(copy.deepcopy(tree), st_)
+        # the code generators get a tree that did NOT go through the symbol-table pass (a second parse of the
+        # same text): the conversion of SMIv1 imports must not depend on SymtableCodeGen having rewritten the tree
+        fresh = (hash(sym) % 2 == 0) if False else (len(sym) % 2 == 0)
+        tree_j = pipeline.parser('smiV1Relaxed').parse(text)[0] if fresh else copy.deepcopy(tree)
+        tree_p = pipeline.parser('smiV1Relaxed').parse(text)[0] if fresh else copy.deepcopy(tree)
+        rec.count('tree.' + ('fresh-parse' if fresh else 'after-symtable'))
+        info, jtext = JsonCodeGen().genCode(tree_j, st_)
         doc = json.loads(jtext)
-        info, ptext = PySnmpCodeGen().genCode(copy.deepcopy(tree), st_)
+        info, ptext = PySnmpCodeGen().genCode(tree_p, st_)
         b, ns = pipeline.exec_module(ptext, 'TB-MIB')
     except Exception as e:
         raise Violation('table:compile-failed', '%s FROM %s: %r' % (sym, frm, e), case, {'text': text})
